@@ -64,6 +64,26 @@ def place(rng, project, what):
     node = usage_node(rng, what)
     key = "zz_%s" % what
     plain = {"k": "lit", "ty": "str", "v": "plain"}
+    if what != "plural" and rng.random() < 0.3:
+        # one variable of one key carries two formatter families: in the same value, or one per locale
+        what2 = pick(rng, [w for w in FMT_SEGS if FAMILY_OF[w] != FAMILY_OF[what]])
+        s1 = {"s": "var", "name": "fv", "fmt": copy.deepcopy(FMT_SEGS[what])}
+        s2 = {"s": "var", "name": "fv", "fmt": copy.deepcopy(FMT_SEGS[what2])}
+        if len(locales) > 1 and rng.random() < 0.6:
+            order = [s1, s2] if rng.random() < 0.5 else [s2, s1]
+            for i, l in enumerate(locales):
+                project["data"][(ns, l)].append([key, {"k": "tmpl", "segs": [{"s": "text", "v": "v: "}, copy.deepcopy(order[min(i, 1)])]}])
+            lab = "two-families-one-variable/across-locales"
+        else:
+            for l in locales:
+                segs = [copy.deepcopy(s1), {"s": "text", "v": " / "}, copy.deepcopy(s2)]
+                if rng.random() < 0.5:
+                    segs.reverse()
+                project["data"][(ns, l)].append([key, {"k": "tmpl", "segs": segs}])
+            lab = "two-families-one-variable/same-value"
+        for l in locales:
+            rng.shuffle(project["data"][(ns, l)])
+        return lab + "/" + "+".join(sorted([what, what2]))
     if kind == "default-top":
         for l in locales:
             project["data"][(ns, l)].append([key, copy.deepcopy(node) if (l == default or rng.random() < 0.5) else dict(plain)])
